@@ -65,6 +65,8 @@ class WkChannel:
         self.w.upwire.append(obj)
         self.w.sent_index[id(obj)] = getattr(self.w.inter, "item_index", None)
         self.w.sent_log.append(obj)
+        if obj[0] == "runtest_protocol_complete":
+            self.w.completed.append(obj[1]["item_index"])
         if obj[0] == "workerfinished":
             self.w.exited = True       # nothing observable happens in the worker after this send
         self.w.on_send(obj)
@@ -89,6 +91,9 @@ class WorkerSim:
         self.upwire = collections.deque()      # events sent, not yet received by the controller side
         self.inbox = collections.deque()       # commands delivered by execnet, not yet handled
         self.ran = []                          # (index, next index or None) as passed to the protocol
+        self.completed = []                    # indices whose runtest_protocol_complete was sent
+        self.popped = []                       # entries the main thread took from the queue, in order
+        self.crash_state = None                # filled in when the worker dies
         self.sent_index = {}                   # id(event) -> item_index at send time
         self.sent_log = []                     # keeps the event objects alive (ids stay unique)
         self.dur_ms = {}                       # index -> reported duration in ms
@@ -193,7 +198,10 @@ class WorkerSim:
             return False
         while self.main.runnable():
             before = (self.main.progress, len(self.inter.torun._items), self.chan.cb is None)
+            head = self.inter.torun._items[0] if self.inter.torun._items else None
             self.main.resume()
+            if len(self.inter.torun._items) < before[1]:
+                self.popped.append(head)
             if self.main.exc:
                 raise self.main.exc
             after = (self.main.progress, len(self.inter.torun._items), self.chan.cb is None)
@@ -205,6 +213,43 @@ class WorkerSim:
         if self.dead:
             return
         self.dead = True
+        # what the worker was doing when it died (for the crash-report monitors)
+        running = None
+        if len(self.completed) < len(self.ran):
+            running = self.ran[-1][0]
+        pend = None
+        M = self.remote.Marker.SHUTDOWN
+        if running is None and len(self.popped) > len(self.ran) and self.popped[len(self.ran)] is not M:
+            pend = int(self.popped[len(self.ran)])     # taken from the queue, protocol not entered yet
+        finishing = len(self.popped) > len(self.ran) and self.popped[len(self.ran)] is M
+        if finishing or running is not None:
+            self.crash_state = {"running": running, "pending_first": None}
+            self.inbox.clear()
+            self.upwire.append("END")
+            self.main.kill = True
+            self.recv.kill = True
+            if self.on_crash:
+                self.on_crash(self)
+            if from_inside:
+                raise Killed()
+            return
+        if pend is None:
+            for x in self.inter.torun._items:
+                if x is not M:
+                    pend = int(x)
+                    break
+                break
+        if pend is None:
+            for cmd in self.inbox:
+                if isinstance(cmd, tuple) and cmd[0] == "shutdown":
+                    break
+                if isinstance(cmd, tuple) and cmd[0] == "runtests" and cmd[1]["indices"]:
+                    pend = int(cmd[1]["indices"][0])
+                    break
+                if isinstance(cmd, tuple) and cmd[0] == "runtests_all" and self.ids:
+                    pend = 0
+                    break
+        self.crash_state = {"running": running, "pending_first": pend}
         self.inbox.clear()
         self.upwire.append("END")
         self.main.kill = True
